@@ -330,7 +330,7 @@ var c04Scenarios = []c04Scenario{
 			}
 		}},
 	{Name: "S2_read_compact_flush", Preload: []string{"Wa", "F", "We", "F", "Wd"},
-		Seam: &c04Seam{FreeQuick: 1, FreeDeep: -1, Timers: 1},
+		Seam: &c04Seam{FreeQuick: 1, FreeDeep: 2, Timers: 1}, // unbounded free switches: > 165 k executions at one preemption
 		Threads: func(v *vShard, l *c04Log) map[string]func() {
 			return map[string]func(){
 				"1compact": func() { _ = v.LevelCompact() },
@@ -663,11 +663,25 @@ func c04Main(t *testing.T, rep *kit.Report) {
 	for i := range scs {
 		exps[i] = c04NewExplorer(scs[i], kit.Shard(), kit.NShard())
 	}
+	// Time budget per bound (cumulative fractions of the deadline at which the pass over all scenarios at that bound ends):
+	// without it the last scenario of a pass, which has no successor to leave time for, can consume the whole run at a
+	// low bound (thorough: S2 at bound 1 with unbounded free switches ran 165 k executions and bound 2 never started).
+	passEnd := func(b int) float64 {
+		dl := float64(rep.DeadlineSeconds())
+		switch {
+		case b >= bound:
+			return dl
+		case b == 0:
+			return dl * 0.08
+		default:
+			return dl * (0.08 + 0.42*float64(b)/float64(bound-1))
+		}
+	}
 	for b := 0; b <= bound; b++ {
 		for i, sc := range scs {
 			var until float64
 			if dl := rep.DeadlineSeconds(); dl > 0 {
-				left := float64(dl) - rep.RealSeconds()
+				left := passEnd(b) - rep.RealSeconds()
 				until = rep.RealSeconds() + left/float64(len(scs)-i)
 			}
 			exps[i].Restart()
